@@ -5,6 +5,7 @@ import (
 	"flag"
 	"fmt"
 	"os"
+	"time"
 
 	am "github.com/pancsta/asyncmachine-go/pkg/machine"
 
@@ -74,7 +75,7 @@ func LoadCase(cj *CaseJ) (*gen.Case, error) {
 			return nil, err
 		}
 		call := gen.Call{Ev: "call", Type: m["type"].(string), Veto: pairList(m["veto"]),
-			Panic: pairList(m["panic"]), Nest: []gen.NestAt{}}
+			Panic: pairList(m["panic"]), Stall: pairList(m["stall"]), Nest: []gen.NestAt{}}
 		if v, ok := m["check"].(bool); ok {
 			call.Check = v
 		}
@@ -125,7 +126,13 @@ func cmdReplay(args []string) int {
 			fmt.Fprintln(os.Stderr, err)
 			return 2
 		}
-		ls, err := seqdrv.Run(c, seqdrv.Opts{Views: true})
+		o := seqdrv.Opts{Views: true}
+		for _, cl := range c.Calls {
+			if len(cl.Stall) > 0 {
+				o.HandlerTimeout = 150 * time.Millisecond
+			}
+		}
+		ls, err := seqdrv.Run(c, o)
 		if err != nil {
 			fmt.Fprintln(os.Stderr, err)
 			return 2
